@@ -274,9 +274,11 @@ pub fn run_check(def: &CheckDef, cfg: &RunConfig) -> i32 {
 
     // needs: minimal observations
     let mut unmet: Vec<String> = Vec::new();
+    let mut needs_report: Vec<(String, J)> = Vec::new();
     if cfg.cases_override.is_none() {
         for (name, min) in (def.needs)(cfg.tier) {
             let got = if name == "distinct_nontrivial" { a.nontrivial_keys.len() as u64 + a.distinct_extra } else { a.counters.get(name).copied().unwrap_or(0) };
+            needs_report.push((name.to_string(), J::Obj(vec![("required".to_string(), J::Int(min as i64)), ("observed".to_string(), J::Int(got as i64))])));
             if got < min {
                 unmet.push(format!("{name}: observed {got} < required {min}"));
             }
@@ -299,6 +301,7 @@ pub fn run_check(def: &CheckDef, cfg: &RunConfig) -> i32 {
             J::Obj(a.inconclusive_reasons.iter().map(|(k, v)| (k.clone(), J::Int(*v as i64))).collect()),
         ),
         ("observed".to_string(), J::Obj(observed)),
+        ("minimum_observations".to_string(), J::Obj(needs_report)),
         ("unmet_needs".to_string(), J::arr_str(&unmet)),
         ("known_findings_hit".to_string(), J::arr_str(&known_hits)),
         ("threads".to_string(), J::Int(cfg.threads as i64)),
